@@ -472,7 +472,7 @@ static void pow2_relation(double u, double f1, int& sg, int& ex)
 		ex = 0;
 		return;
 	}
-	if(std::fabs(f1) < 1e-280 && std::fabs(u) < 1e-280)
+	if(std::fabs(f1) < 1e-280 || std::fabs(u) < 1e-280)
 	{
 		sg = 0;	  // subnormal range: scaling by a power of two is no longer exact
 		ex = 0;
